@@ -47,6 +47,15 @@ def programs(tick, unit, kind='futures'):
     else:
         P.append(('long-market-scaleout-at-market', dict(base, side='long', enter={'when': 'flat', 'legs': [[2, 0]]},
                                                           on_open={'tp': [[1, 0]]}, cancel_entry=True)))
+    # multi-step histories inside one trade: a partial take-profit whose handler submits a MARKET order (scale back in / get out)
+    P.append(('long-market-tp1-reenter', dict(base, side='long', enter={'when': 'flat', 'legs': [[2, 0]]},
+                                               on_open={'sl': [[2, 3]], 'tp': [[1, 1], [1, 3]]} if kind == 'futures' else {'tp': [[1, 1], [1, 3]]},
+                                               on_reduced={'reenter': [[2, 0]]},
+                                               on_increased={'sl': 'all', 'tp': 'all', 'sl_d': 3, 'tp_d': 2} if kind == 'futures' else {'tp': 'all', 'tp_d': 2},
+                                               cancel_entry=True)))
+    P.append(('long-market-tp1-liquidate', dict(base, side='long', enter={'when': 'flat', 'legs': [[2, 0]]},
+                                                 on_open={'sl': [[2, 2]], 'tp': [[1, 1], [1, 3]]} if kind == 'futures' else {'tp': [[1, 1], [1, 3]]},
+                                                 on_reduced={'liquidate': True}, cancel_entry=True)))
     if kind == 'futures':
         P.append(('short-limit-2leg', dict(base, side='short', enter={'when': 'flat', 'legs': [[1, 1], [1, 2]]},
                                             on_open={'sl': 'all', 'tp': 'all', 'sl_d': 2, 'tp_d': 2},
